@@ -81,7 +81,7 @@ func (c *char) applyBleed(target key.TargetID) {
 }
 
 // Implementation of: github.com/srsim/internal/global/common/triggerable_dot.go
-func (b *BleedState) TriggerDot(dot info.Modifier, ratio float64, engine engine.Engine, target key.TargetID) {
+func (b BleedState) TriggerDot(dot info.Modifier, ratio float64, engine engine.Engine, target key.TargetID) {
 	owner := engine.Stats(dot.Source)
 	targetStats := engine.Stats(target)
 	bleedDamage := b.EnemyHealthRatioCap * targetStats.MaxHP()
